@@ -89,6 +89,34 @@ fn parse_args() -> Opts {
 
 /// Entry point of a shard binary.
 pub fn shard_main(prop: &str, registry: &[Entry]) {
+    // `--one <case id>`: parse the input given on stdin once, in this fresh process, and print the result
+    // (the history-free baseline of C20)
+    {
+        let args: Vec<String> = std::env::args().collect();
+        if args.len() == 3 && args[1] == "--one" {
+            let id: usize = args[2].parse().unwrap();
+            let mut input = String::new();
+            std::io::Read::read_to_string(&mut std::io::stdin(), &mut input).unwrap();
+            let f = registry.iter().find(|e| e.id == id).expect("case id").run;
+            real::silence_panics();
+            let r = std::thread::Builder::new()
+                .stack_size(256 << 20)
+                .spawn(move || {
+                    real::silence_panics();
+                    user::reset(user::Answers::default());
+                    f(&input, Mode::Plain)
+                })
+                .unwrap()
+                .join()
+                .unwrap_or(Real::Panic("thread".into()));
+            emit(match r {
+                Real::Ok(s) => json!({"k":"ok","s":s}),
+                Real::Err { pos, spec } => json!({"k":"err","pos":pos,"spec":spec}),
+                Real::Panic(m) => json!({"k":"panic","m":m}),
+            });
+            return;
+        }
+    }
     let mut opts = parse_args();
     opts.prop = prop.to_string();
     real::silence_panics();
